@@ -215,25 +215,45 @@ func c09UsageOf(t *rapid.T, label string, req, cap int64) int64 {
 	}
 }
 
+// reclaim threshold percent: realistic values dominate, boundaries and >100 (admitted by the validator: min=0, no max; used by the
+// package's own unit tests) are kept as minorities. rapid favours small draws, so the common shapes come first.
+func c09GenThr(t *rapid.T, label string) int64 {
+	switch rapid.IntRange(0, 9).Draw(t, label+"Kind") {
+	case 0, 1:
+		return rapid.SampledFrom([]int64{60, 65, 70, 80, 90}).Draw(t, label)
+	case 2, 3, 4, 5:
+		return rapid.Int64Range(40, 100).Draw(t, label)
+	case 6, 7:
+		return rapid.Int64Range(0, 100).Draw(t, label)
+	case 8:
+		return rapid.SampledFrom([]int64{100, 0, 1, 99}).Draw(t, label)
+	default:
+		return rapid.Int64Range(101, 200).Draw(t, label)
+	}
+}
+
+// percentage cap of node capacity
 func c09GenPct(t *rapid.T, label string) int64 {
 	switch rapid.IntRange(0, 9).Draw(t, label+"Kind") {
-	case 0:
-		return rapid.SampledFrom([]int64{0, 100, 1, 99}).Draw(t, label)
-	case 1:
-		return rapid.Int64Range(101, 200).Draw(t, label) // admitted by the validator (min=0, no max); used by the unit tests
-	case 2, 3:
-		return rapid.SampledFrom([]int64{60, 65, 70, 80}).Draw(t, label)
-	default:
+	case 0, 1, 2, 3:
 		return rapid.Int64Range(0, 100).Draw(t, label)
+	case 4, 5:
+		return rapid.SampledFrom([]int64{50, 20, 10, 0, 100}).Draw(t, label)
+	case 6, 7:
+		return rapid.Int64Range(0, 40).Draw(t, label)
+	case 8:
+		return rapid.SampledFrom([]int64{1, 99}).Draw(t, label)
+	default:
+		return rapid.Int64Range(101, 200).Draw(t, label)
 	}
 }
 
 func c09GenCase(t *rapid.T) *c09Case {
 	cs := &c09Case{}
 	if rapid.Bool().Draw(t, "capCPURound") {
-		cs.Cap[0] = 1000 * rapid.SampledFrom([]int64{1, 2, 4, 8, 16, 32, 48, 64, 96, 104, 128, 192, 256}).Draw(t, "capCores")
+		cs.Cap[0] = 1000 * rapid.SampledFrom([]int64{8, 16, 32, 4, 64, 96, 104, 128, 48, 192, 256, 2, 1}).Draw(t, "capCores")
 	} else {
-		cs.Cap[0] = rapid.Int64Range(1000, 256000).Draw(t, "capMilli")
+		cs.Cap[0] = rapid.OneOf(rapid.Int64Range(8000, 128000), rapid.Int64Range(8000, 128000), rapid.Int64Range(1000, 256000)).Draw(t, "capMilli")
 	}
 	if rapid.Bool().Draw(t, "capMemRound") {
 		cs.Cap[1] = (1 << 30) * rapid.Int64Range(1, 4096).Draw(t, "capGiB")
@@ -241,9 +261,9 @@ func c09GenCase(t *rapid.T) *c09Case {
 		cs.Cap[1] = rapid.Int64Range(1<<30, 4<<40).Draw(t, "capBytes")
 	}
 	for r := 0; r < 2; r++ {
-		switch rapid.IntRange(0, 3).Draw(t, "kubeResKind") {
-		case 0:
-		case 1, 2:
+		switch rapid.IntRange(0, 5).Draw(t, "kubeResKind") {
+		case 0, 1:
+		case 2, 3, 4:
 			cs.KubeRes[r] = rapid.Int64Range(0, cs.Cap[r]/10).Draw(t, "kubeRes")
 		default:
 			cs.KubeRes[r] = rapid.Int64Range(0, cs.Cap[r]).Draw(t, "kubeRes")
@@ -253,10 +273,10 @@ func c09GenCase(t *rapid.T) *c09Case {
 	switch rapid.IntRange(0, 5).Draw(t, "annoMode") {
 	case 0, 1, 2:
 	case 3:
-		cs.AnnoRes[0] = c09Amount(t, "annoCPU", cs.Cap[0]/2)
-		cs.AnnoRes[1] = c09Amount(t, "annoMem", cs.Cap[1]/2)
+		cs.AnnoRes[0] = c09Amount(t, "annoCPU", cs.Cap[0]/4)
+		cs.AnnoRes[1] = c09Amount(t, "annoMem", cs.Cap[1]/4)
 	case 4:
-		cs.AnnoCPUs = rapid.IntRange(1, int(cs.Cap[0]/1000)).Draw(t, "annoCPUs")
+		cs.AnnoCPUs = rapid.OneOf(rapid.IntRange(1, int(cs.Cap[0]/8000)+1), rapid.IntRange(1, int(cs.Cap[0]/1000))).Draw(t, "annoCPUs")
 		if rapid.Bool().Draw(t, "annoMemToo") {
 			cs.AnnoRes[1] = c09Amount(t, "annoMem", cs.Cap[1]/2)
 		}
@@ -265,13 +285,13 @@ func c09GenCase(t *rapid.T) *c09Case {
 		cs.AnnoRes[r] = c09Amount(t, "annoOne", cs.Cap[r]/2)
 	}
 	for r := 0; r < 2; r++ {
-		cs.Thr[r] = c09GenPct(t, "thr"+c09ResName[r])
+		cs.Thr[r] = c09GenThr(t, "thr"+c09ResName[r])
 		cs.Policy[r] = rapid.SampledFrom(c09Policies[r]).Draw(t, "policy"+c09ResName[r])
 		cs.PctCap[r] = -1
 		if rapid.IntRange(0, 2).Draw(t, "hasPctCap") > 0 {
 			cs.PctCap[r] = c09GenPct(t, "pctCap"+c09ResName[r])
 		}
-		cs.Sys[r] = c09Amount(t, "sys"+c09ResName[r], cs.Cap[r]/2)
+		cs.Sys[r] = c09Amount(t, "sys"+c09ResName[r], cs.Cap[r]/4)
 	}
 	cs.DegradeMin = rapid.Int64Range(1, 120).Draw(t, "degradeMin")
 
@@ -297,15 +317,15 @@ func c09GenCase(t *rapid.T) *c09Case {
 	}
 
 	// pods
-	maxPods := 8
+	podCounts := []int{3, 4, 2, 5, 1, 6, 0, 7, 8, 3, 4, 5}
 	if vk.Thorough() {
-		maxPods = 14
+		podCounts = append(podCounts, 10, 12, 14)
 	}
-	np := rapid.IntRange(0, maxPods).Draw(t, "pods")
+	np := rapid.SampledFrom(podCounts).Draw(t, "pods")
 	// a per-case scale keeps the sum of requests around the node size instead of far above it
 	perPod := [2]int64{cs.Cap[0], cs.Cap[1]}
 	if np > 2 {
-		perPod = [2]int64{cs.Cap[0] * 3 / int64(np), cs.Cap[1] * 3 / int64(np)}
+		perPod = [2]int64{cs.Cap[0] * 2 / int64(np), cs.Cap[1] * 2 / int64(np)}
 	}
 	for i := 0; i < np; i++ {
 		p := c09Pod{Name: fmt.Sprintf("p%d", i)}
@@ -336,7 +356,10 @@ func c09GenCase(t *rapid.T) *c09Case {
 			for r := 0; r < 2; r++ {
 				if p.QoS == "LSE" || p.QoS == "LSR" {
 					if r == 0 { // cpuset pods request whole cores
-						c.Req[0] = 1000 * (c09Amount(t, "reqCores", perPod[0]/int64(nc))/1000 + 1)
+						c.Req[0] = 1000 * (c09Amount(t, "reqCores", perPod[0]/int64(nc))/1000)
+						if c.Req[0] == 0 {
+							c.Req[0] = 1000
+						}
 					} else {
 						c.Req[1] = c09Amount(t, "req"+c09ResName[r], perPod[r]/int64(nc)) + 1
 					}
@@ -1065,6 +1088,7 @@ func TestVerifC09BatchMonotone(t *testing.T) {
 	rapid.Check(t, func(t *rapid.T) {
 		c := rec.Begin()
 		defer c.End()
+		_ = rapid.IntRange(0, 1<<20).Draw(t, "salt") // decorrelate from batchBound, which shares the generator and the seed
 		base := c09GenCase(t)
 		// the mutation is drawn on a clone; drop-metric also normalises the base case
 		mut := base.clone()
@@ -1141,6 +1165,7 @@ func TestVerifC09BatchStale(t *testing.T) {
 	rapid.Check(t, func(t *rapid.T) {
 		c := rec.Begin()
 		defer c.End()
+		_ = rapid.IntRange(0, 1<<10).Draw(t, "salt")
 		cs := c09GenCase(t)
 		window := cs.DegradeMin * 60
 		var ut *metav1.Time
